@@ -377,8 +377,20 @@ def tlmScan : Nat → List Byte → Nat → Option (List (Nat × Nat))
     else some []
 
 open Gen.C16J2kMarkers in
-/-- `writeTLM(buf, tileParts)`: nothing unless HTJ2K; one TLM segment, `Ztlm = 0`, `Stlm = 0x60`
-    (16-bit tile index, 32-bit length), `Ltlm = uint16(4 + 6·entries)` -/
+/-- the segment loop of `writeTLM` (`for ztlm := 0; len(entries) > 0; ztlm++`, fix htj2k-tlm-length-overflow): chunks
+    of at most (65535-4)/6 = 10921 entries, one TLM marker segment each — `Ltlm = uint16(4 + 6·chunk)`,
+    `Ztlm = byte(ztlm)`, `Stlm = 0x60` (16-bit tile index, 32-bit length). Fuel = number of entries. -/
+def tlmSegments : Nat → Nat → List (Nat × Nat) → List Byte
+  | 0, _, _ => []
+  | fuel + 1, ztlm, entries =>
+    if entries.length = 0 then []
+    else
+      let chunk := entries.take 10921
+      be16 MarkerTLM.toNat ++ be16 (u16Of (4 + chunk.length * 6)) ++ [ztlm % 256, 0x60] ++
+        (chunk.flatMap fun e => be16 e.1 ++ be32 e.2) ++ tlmSegments fuel (ztlm + 1) (entries.drop 10921)
+
+/-- `writeTLM(buf, tileParts)`: nothing unless HTJ2K; the scan, then the TLM marker segments
+    (one as long as there are at most 10921 tile-parts; more than 256 segments is an error) -/
 def writeTLM (htj2k : Bool) (tileParts : List Byte) : Outcome (List Byte) :=
   if !htj2k then .ok []
   else
@@ -386,8 +398,8 @@ def writeTLM (htj2k : Bool) (tileParts : List Byte) : Outcome (List Byte) :=
     | none => .err
     | some entries =>
       if entries.length = 0 then .err
-      else .ok (be16 MarkerTLM.toNat ++ be16 (u16Of (4 + entries.length * 6)) ++ [0, 0x60] ++
-        entries.flatMap fun e => be16 e.1 ++ be32 e.2)
+      else if entries.length > 256 * 10921 then .err
+      else .ok (tlmSegments entries.length 0 entries)
 
 open Gen.C16J2kMarkers in
 /-- the tail of `buildCodestream`: tile-parts (with TLM in front for HTJ2K) and EOC -/
